@@ -220,6 +220,9 @@ def _rand(args):
         s = sorted(list(rng.random(max(kmin - 1, 0)) + 0.5) + [0.0], reverse=True)[:kmin]   # rank deficient
     solver = ("damped", "cubic")[tid % 2]
     gamma = float(rng.choice([0.3, 0.5, 0.8, 1.0])) if solver == "damped" else 1.0
+    # overall magnitude: the recurrence is scale free (X scales inversely); exact powers of two
+    e2 = ((0, -20, -34, 30) if solver == "damped" else (0, -20, -28, 30))[(tid // 10) % 4]
+    s = [v * 2.0 ** e2 for v in s]
     A = E.usv(U, s, V)
     r = sum(1 for v in s if v != 0)
     nrmA = max(ofro(A), 1e-300)
